@@ -571,17 +571,62 @@ def _check_prompt(ctx):
     p = tm.param(g.params[0])
     ok2 = False
     why = fmt(ret2)
-    if ret2.op == "ite":
-        c, a, b = ret2.args
-        pos = True
-        if c.op == "not":
-            c, a, b, pos = c.args[0], b, a, False
-        isfile = is_call_to(c, "os.path.isfile") and c.args[1] and \
-            c.args[1][0] is p
-        prompt = a.op == "call" and tm.callee_name(a) == CONFIRM
-        nokey = prompt and not any(k == "key" for k, _ in a.args[2]) and \
-            len(a.args[1]) <= 1
-        ok2 = bool(isfile and prompt and nokey and tm.is_const(b, True))
+    # by cases, for a path argument (str / PathLike): the file exists ->
+    # the prompt's result (default key); it does not -> True
+    tests = [a for a in ret2.walk()
+             if is_call_to(a, "os.path.isfile", "os.path.exists",
+                           ".is_file", ".exists")]
+    on_own = [a for a in tests if (a.args[1] and a.args[1][0] is p) or
+              tm.method_recv(a) is p]
+
+    def kinds_of(x: T):
+        while x.op == "named":
+            x = x.args[1]
+        if x.op == "tuple":
+            out = set()
+            for z in x.args:
+                k = kinds_of(z)
+                if k is None:
+                    return None
+                out |= k
+            return out
+        n = x.args[0] if x.op in ("global", "cls") else None
+        if n == "builtins.str":
+            return {"str"}
+        if n in ("os.PathLike", "pathlib.Path", "pathlib.PurePath",
+                 "pathlib.PosixPath"):
+            return {"Path"}
+        if n in ("builtins.bytes",):
+            return set()
+        return None
+
+    def case(exists: bool, kind: str = "str") -> T:
+        def assign(a: T):
+            if is_call_to(a, "builtins.isinstance") and \
+                    len(a.args[1]) == 2 and a.args[1][0] is p:
+                ks = kinds_of(a.args[1][1])
+                return None if ks is None else kind in ks
+            if a in on_own:
+                return exists
+            return None
+        t = ret2
+        for _ in range(5):
+            n = tm.select(t, assign)
+            if n is t:
+                break
+            t = n
+        return t
+    if on_own and len(on_own) == len(tests):
+        ok2 = True
+        for kind in ("str", "Path"):      # both ways a path can be given
+            a, b = case(True, kind), case(False, kind)
+            prompt = a.op == "call" and tm.callee_name(a) == CONFIRM
+            nokey = prompt and not any(k == "key" for k, _ in a.args[2]) \
+                and len(a.args[1]) <= 1
+            if not (prompt and nokey and tm.is_const(b, True)):
+                ok2 = False
+                why = (f"for a {kind} path that exists the result is "
+                       f"{fmt(a)[:80]}, for one that does not {fmt(b)[:40]}")
     ctx.ob("C17.4", g, ok2,
            "check_and_confirm_overwrite prompts iff os.path.isfile(path) and "
            "returns the prompt's result, True otherwise, default key"
